@@ -253,13 +253,22 @@ def cache_params():
 
 
 def exec_params():
-    out = dict(start='StartUnknown', ctor='CtorUnknown', wait='WaitUnknown')
+    out = dict(start='StartUnknown', ctor='CtorUnknown', wait='WaitUnknown', snap='SnapUnknown')
     pr = _src('runners/process.py')
     w = _find(pr, 'ProcessExecutor', 'wait')
     if w is not None:
         stm = [ast.unparse(n) for n in w.body if not (isinstance(n, ast.Expr) and isinstance(n.value, ast.Constant))]
         if stm == ['self._consume_result_queue(timeout_seconds=timeout_seconds)', 'self._start_processes()', 'return split_done_futures(futures)']:
             out['wait'] = 'WaitAlwaysStarts'
+    # where is the liveness of the workers sampled, relative to the drain of the result queue (the join of the consumer thread)?
+    out['snap'] = 'SnapUnknown'
+    cq = _find(pr, 'ProcessExecutor', '_consume_result_queue')
+    if cq is not None:
+        alive = [i for i, n in enumerate(cq.body) if isinstance(n, ast.Assign) and 'is_alive' in ast.unparse(n)]
+        joins = [i for i, n in enumerate(cq.body) if isinstance(n, ast.Expr) and ast.unparse(n).endswith('.join()')]
+        nested_alive = [n for i, st in enumerate(cq.body) if i not in alive for n in ast.walk(st) if isinstance(n, ast.Attribute) and n.attr == 'is_alive']
+        if len(alive) == 1 and len(joins) == 1 and not nested_alive:
+            out['snap'] = 'SnapBefore' if alive[0] < joins[0] else 'SnapAfter'
     fn = _find(pr, 'ProcessExecutor', '_start_processes')
     if fn is None:
         return out
@@ -443,6 +452,7 @@ def with_probes():
     _settle(ep, 'start', 'StartUnknown', probed)
     _settle(ep, 'ctor', 'CtorUnknown', probed)
     _settle(ep, 'wait', 'WaitUnknown', probed)
+    _settle(ep, 'snap', 'SnapUnknown', probed)
     sg = storage_params()
     _settle(sg, 'g_chars', None, probed)
     for k in ('g_empty', 'g_key_parent', 'g_file_parent', 'g_delete_validates'):
@@ -490,7 +500,8 @@ def render():
     lines += ['Definition ctx_sites_src : ctx_sites := {| cf_serial := %(serial)s; cf_fork := %(fork)s; cf_spawn := %(spawn)s |}.' % xp]
     lines += ['Definition start_policy_src : start_policy := %(start)s.' % ep,
               'Definition proc_ctor_src : proc_ctor := %(ctor)s.' % ep,
-              'Definition wait_policy_src : wait_policy := %(wait)s.' % ep]
+              'Definition wait_policy_src : wait_policy := %(wait)s.' % ep,
+              'Definition snapshot_src : snap_pos := %(snap)s.' % ep]
     lines += ['Definition save_order_src : save_order := %(order)s.' % cp,
               'Definition save_cleanup_src : save_cleanup := %(cleanup)s.' % cp]
     chars = sg['g_chars']
